@@ -420,7 +420,7 @@ PROPS["C05"] = {
 PROPS["C09"] = {
     "prepare": [prep_corpus],
     "units": [
-        {"name": "results", "pkg": "./zverif/c09", "run": "^TestVerifC09$", "timeout": {"quick": 300, "thorough": 2400},
+        {"name": "results", "pkg": "./zverif/c09", "run": "^TestVerifC09", "timeout": {"quick": 300, "thorough": 2400},
          "shards": {"quick": 1, "thorough": 8}},
     ],
     "rule": "results: for every corpus function with results (33 result types) rapid picks per result how the value is supplied to Return: ordinary value "
@@ -431,11 +431,13 @@ PROPS["C09"] = {
             "stand-in values given to When match equal arguments of the declared type and not different ones. condition-histories: 1..3 configuration steps "
             "on one corpus function (half of them variadic), each When(values) / In(tuple, tuple) / When then In on one stub with per-parameter values "
             "supplied as ordinary / nil / stand-in struct / stand-in pointer; calls with independently built equal arguments must yield the condition's "
-            "result, a call differing in one scalar argument the default. Distinct by (function, supply kinds, codes).",
+            "result, a call differing in one scalar argument the default. standin-reuse: 2..6 uses of ONE stand-in struct type (by value and by pointer) for "
+            "three declared types of identical layout, as Return values and as When conditions. Distinct by (function, supply kinds, codes).",
     "assumptions": ["same-size values of a different non-struct type are outside the enumerated guarantees"],
     "floors": [("results", "rejected-wrong-size", 300), ("results", "delivered/untyped-nil/func", 8), ("results", "delivered/standin/struct", 50),
                ("results", "delivered/standin-ptr/ptr", 5), ("results", "delivered/untyped-nil/interface", 50), ("results", "standin/pointer-shaped-struct", 20),
-               ("condition-histories", "condhist/multi-step-variadic", 100), ("condition-histories", "condhist/variadic/in", 100)],
+               ("condition-histories", "condhist/multi-step-variadic", 100), ("condition-histories", "condhist/variadic/in", 100),
+               ("standin-reuse", "one-stand-in-type-for-several-declared-types", 200)],
 }
 
 PROPS["C12"] = {
